@@ -636,15 +636,83 @@ def _nonjson(o):
     return ["nonjson", type(o).__name__, repr(o)]
 
 
+class _Streams:
+    """The process-wide stdout/stderr of one simulated node.  Installed once per history (and once per
+    reference run), not per operation: an operation that leaves sys.stdout / sys.stderr swapped behind it is
+    therefore not repaired by the harness and shows in the interpreter state of the following operations."""
+
+    def __init__(self):
+        self.out = io.StringIO()
+        self.err = corpus.Sink()
+        self.saved = None
+        self.base = {}
+
+    def install(self):
+        self.saved = (sys.stdout, sys.stderr)
+        sys.stdout, sys.stderr = self.out, self.err
+        self.base = _raw_interp()
+
+    def uninstall(self):
+        sys.stdout, sys.stderr = self.saved
+
+    def take(self):
+        v = self.out.getvalue()
+        self.out.seek(0)
+        self.out.truncate(0)
+        return v
+
+
+STREAMS = [None]
+
+
+def _raw_interp():
+    import signal
+
+    try:
+        cwd = os.getcwd()
+    except OSError:
+        cwd = "<gone>"
+    return {"cwd": cwd, "trace": sys.gettrace(), "profile": sys.getprofile(),
+            "sigint": signal.getsignal(signal.SIGINT), "sigpipe": signal.getsignal(signal.SIGPIPE),
+            "sys_path_len": len(sys.path), "umask": _umask(), "dont_write_bytecode": sys.dont_write_bytecode,
+            "excepthook": sys.excepthook, "displayhook": sys.displayhook,
+            "switchinterval": sys.getswitchinterval()}
+
+
+def interp_state():
+    """interpreter-wide settings that a public call has no business changing, each reported as
+    "unchanged since this node started" (so that the value itself, which differs between a fork of the
+    zygote and a fresh interpreter, never enters a digest)"""
+    st = STREAMS[0]
+    base = st.base if st is not None else {}
+    cur = _raw_interp()
+    out = {"stdout_is_node_stream": st is None or sys.stdout is st.out,
+           "stderr_is_node_stream": st is None or sys.stderr is st.err,
+           "recursion_limit_leak": core.FixedHeadroom.LEAK}
+    for k in sorted(cur):
+        out[k + "_unchanged"] = (k not in base) or (cur[k] is base[k]) or (cur[k] == base[k])
+    return out
+
+
+def _umask():
+    m = os.umask(0o22)
+    os.umask(m)
+    return m
+
+
 def exec_op(op, detail=False):
     """Returns record: {"d": digest, "c": {component: digest}, "x": exception class|None, ["full": ...]}"""
-    old_out, old_err = sys.stdout, sys.stderr
-    cap = io.StringIO()
-    sys.stdout, sys.stderr = cap, corpus.Sink()
+    own = STREAMS[0] is None
+    if own:
+        STREAMS[0] = _Streams()
+        STREAMS[0].install()
+    st = STREAMS[0]
+    st.take()
     comp = {}
     exc = None
     res = {"ret": None, "text": None}
     FIRED[0] = False
+    pre = interp_state()
     try:
         try:
             res = _trampoline(op, detail)
@@ -655,10 +723,14 @@ def exec_op(op, detail=False):
             exc = "SystemExit"
             res = {"ret": ["SystemExit", repr(e.code)], "text": None}
     finally:
-        sys.stdout, sys.stderr = old_out, old_err
-    res["stdout"] = cap.getvalue()
+        post = interp_state()
+        res["stdout"] = st.take()
+        if own:
+            st.uninstall()
+            STREAMS[0] = None
+    res["interp"] = {"before": pre, "after": post}
     full = {}
-    for k in ("ret", "text", "stdout"):
+    for k in ("ret", "text", "stdout", "interp"):
         v = res.get(k)
         if v is None:
             continue
@@ -679,6 +751,8 @@ def _history_child(emit, ops, images, detail, tables_every_op, tables_at_end=Tru
     d = os.path.join(W["rundir"], "h-%d" % os.getpid())
     os.makedirs(d, exist_ok=True)
     os.chdir(d)
+    STREAMS[0] = _Streams()
+    STREAMS[0].install()
     try:
         for j, op in enumerate(ops):
             if op[0] == "install":
